@@ -13,7 +13,7 @@ use std::sync::{Arc, Mutex};
 pub fn def() -> PropDef {
     PropDef {
         id: "C17",
-        rule: "histories: for a corpus of (function, argument) items over parse/uncompress/compress/rename/RR::from_string/raw_name_from_str/query, the result of every item computed in a fresh process is the baseline; every ordered pair (and, thorough, triple) g(y); f(x) run back to back on one thread must reproduce f(x)'s baseline. schedules: 2 (thorough: also 3) real threads each running one item with the library's yield points (per name emitted / copied / replaced, per record parsed) as scheduling points, every interleaving with at most 2 (thorough 3) preemptions; randomness: empty()/query() twice differ at most in the id. supplementary, outside the exhaustive claim: the concurrent items on 4 free-running threads (sampling; reaches windows without a yield point). distinct classes = (kind, function pair, outcome kinds)",
+        rule: "histories: for a corpus of (function, argument) items over parse/uncompress/compress/rename/RR::from_string/raw_name_from_str/query, the result of every item computed in a fresh process is the baseline; every ordered pair (and, thorough, triple) g(y); f(x) run back to back on one thread, and every ordered triple of calls of the same function over up to 14 arguments each, must reproduce the baselines. schedules: 2 (thorough: also 3) real threads each running one item with the library's yield points (per name emitted / copied / replaced, per record parsed) as scheduling points, every interleaving with at most 2 (thorough 3) preemptions; randomness: empty()/query() twice differ at most in the id. supplementary, outside the exhaustive claim: the concurrent items on 4 free-running threads (sampling; reaches windows without a yield point). distinct classes = (kind, function pair, outcome kinds)",
         run,
         replay,
         bounds: |t| json!({"corpus_items": items().len(), "concurrent_items": conc_items().len(), "history_length": t.pick(2, 3), "threads": t.pick(vec![2], vec![2, 3]), "preemption_bound": t.pick(2, 3), "max_executions_per_tuple": 30000}),
@@ -255,6 +255,16 @@ pub fn items() -> Vec<Item> {
         v.push(Item::FromString("ok.example 7 IN TXT \"hello\"".to_string()));
         v.push(Item::FromString("ok.example 7 IN MX 5 mail.ok.example".to_string()));
     }
+    // plain queries: nothing to compress, nothing to expand, nothing to rename (calls that "do nothing" are the
+    // ones a streak counter or an adaptive shortcut would count)
+    for q in ["b.a", "x.y.z", "example.com"] {
+        let m = base_msg(&nm(q), T_A, false);
+        let p = encode(&m, Strategy::Plain);
+        v.push(Item::Compress(p.clone()));
+        v.push(Item::Uncompress(p.clone()));
+        v.push(Item::Rename(p.clone(), nm("k"), nm("nomatch"), false));
+        v.push(Item::Parse(p));
+    }
     // host-name conversion and query synthesis: case twins, zone / no zone, failures between successes
     {
         let zone = Some(nm("example.com"));
@@ -386,6 +396,37 @@ fn run(ctx: &mut Ctx, rep: &mut Report) {
             }
         }
     }
+    // every ordered triple of calls of the SAME function (x; y; z back to back): what a function remembers about
+    // its own recent calls (a streak counter, a last-argument memo, an adaptive threshold) shows here
+    {
+        let mut by_fn: std::collections::BTreeMap<&'static str, Vec<usize>> = Default::default();
+        for (i, it) in its.iter().enumerate() {
+            by_fn.entry(it.fname()).or_default().push(i);
+        }
+        for (fname, idx) in by_fn.iter() {
+            // at most 14 arguments per function, spread over the corpus
+            let step = (idx.len() + 13) / 14;
+            let pick: Vec<usize> = idx.iter().step_by(step.max(1)).cloned().collect();
+            for &x in &pick {
+                for &y in &pick {
+                    gi += 1;
+                    if !ctx.mine(gi) || ctx.timed_out() {
+                        continue;
+                    }
+                    for &z in &pick {
+                        for &i in [x, y, z].iter() {
+                            log.push(i);
+                            let r = eval(&its[i]);
+                            check(rep, &log, i, &r);
+                        }
+                        rep.transitions += 3;
+                    }
+                    rep.states += 1;
+                }
+            }
+            rep.class(&format!("seq3 same-function {}", fname));
+        }
+    }
     rep.bump("sequential_history_length", log.len() as u64);
     if rep.samples.len() < MAX_SAMPLES && ctx.shard == 0 {
         rep.sample(|| json!({"kind": "seqlog", "first_calls": log.iter().take(8).map(|&i| its[i].fname()).collect::<Vec<_>>(), "history_length": log.len()}));
@@ -432,7 +473,8 @@ fn run(ctx: &mut Ctx, rep: &mut Report) {
     let bound = ctx.tier.pick(2, 3);
     let m = cits.len();
     for a in 0..m {
-        for b in 0..m {
+        // quick: unordered pairs (which item starts is then decided by the schedule alone); thorough: both orders
+        for b in (if ctx.tier == Tier::Thorough { 0 } else { a })..m {
             gi += 1;
             if !ctx.mine(gi) || ctx.timed_out() {
                 continue;
